@@ -168,15 +168,14 @@ class CHECK(vlib.Check):
     modelled = ("util/Queue.h: representation (_queue kind, _itemCount, _headIndex, _tailIndex, _queueSize, raw slots), "
                 "NextIndex/PrevIndex/InternalizeIndex, EnsureSizeAux, AddTail/AddHead, RemoveHead/RemoveTail(+Multi), "
                 "RemoveItemAt, InsertItemAt, ReplaceItemAt, Clear, Swap, ReverseItemOrdering, Normalize (effect level), "
-                "IndexOf/LastIndexOf, Sort (effect level: stable sort of the sub-range; the in-place merge algorithm itself is corresponded only), "
+                "IndexOf/LastIndexOf, Sort (code-shaped: bubble sort below 12 items, in-place Merge with Lower/Upper and the rotation by gcd cycles, proved equal to the stable sort), "
                 "QueueIterator, RemoveSortedDuplicateItems/RemoveDuplicateItems, InsertItemAtSortedPosition, "
                 "AddTailMulti/AddHeadMulti/InsertItemsAt (array forms and Queue forms incl. a Queue passed as "
                 "its own argument), CopyFrom, operator=, Remove*InstanceOf, the unused in-object array, and on two queues: "
                 "SwapContents/SwapContentsAux, Plunder (move), operator==, StartsWith/EndsWith. "
                 "arguments that are references into the Queue's own storage (AddTail(q[i]) etc.), ShrinkToFit/EnsureCanAdd, "
                 "ReplaceAllItems, GetArrayPointer, lexicographic comparison. "
-                "Effect level in the model: Sort/Merge (stable sort of the range), Normalize's rotate-the-whole-array branch, "
-                "RemoveSortedDuplicateItems' compaction. "
+                "Normalize's rotation (Hsieh's cycle algorithm) and the RemoveSortedDuplicateItems / RemoveAllInstancesOf loops are code-shaped as well. "
                 "Not modelled: AdoptRawDataArray/ReleaseRawDataArray, HashCode/CalculateChecksum, constructors other than the default one.")
     premises = ["memory safety and object lifetime of the C++ (observed by ASan/UBSan in the harness only)",
                 "item counts below 2^31 (the uint32 sums size+extraPreallocs, count+n of EnsureSize/EnsureCanAdd/ShrinkToFit ARE modelled; "
